@@ -150,6 +150,8 @@ def make_case(seed, depth, flavour="basic"):
             prog, argt, rett = G.vmap(max(depth, 2))
             if not (prog[0] == "vmap" and prog[1] and prog[1][0] == 1):
                 continue
+        elif root == "static":
+            prog, argt, rett = G.static(max(depth, 1), ["S"] * rng.randint(1, 2))      # with arguments: its edits change them
         elif root:
             prog, argt, rett = getattr(G, root)(max(depth, 1))
         else:
@@ -771,6 +773,8 @@ def run_case(case):
         cur_ti = 0
         for ei in range(2):
             kind = rng.choice(kinds)
+            if case["flavour"] == "root:static" and ei == 0 and "static" in kinds:
+                kind = "static"        # the targeted stream meets StaticRequest (with changed arguments) in every run
             present = [(p, v) for (p, v) in cur_obs["look"] if v is not None and p in case["univ"]]
             noship = kind in ("scan_index", "switch_index")
             if kind == "scan_index":
